@@ -284,6 +284,8 @@ def set_grads(case, params, step):
             g = dyadic(gen, p.shape, dtype=p.dtype)        # always drawn, so presence does not shift later values
             if case.get("gscale", 1.0) != 1.0:              # power-of-two gradient scale (exact): tiny / large gradient regimes
                 g = g * case["gscale"]
+            if [gi, pi] in (step.get("zero") or []):          # a PRESENT gradient that is exactly zero
+                g = g * 0.0
             p.grad = g if step["present"][gi][pi] else None
 
 
